@@ -1,9 +1,10 @@
 """C14 -- JSON lines output round-trips and is plain JSON.
 
 proof:   coq/props/C14.v (theorems about model/Json.v instantiated with the GENERATED configuration
-         gen/Gen_json.v: pack_obj's branch order and actions, marker keys, boolean cast, base64-decoded types,
-         register / pack_obj guards, reader fallback, fieldtype_for_value's order, type-name -> kind table)
-tie:     (T) gen/Gen_json.v regenerated from jsonpacker.py / adapter/jsonfile.py / fieldtypes on every run;
+         gen/Gen_json.v: pack_obj's action per value class, marker keys, boolean cast, base64-decoded types,
+         register / pack_obj guards, reader fallback, fieldtype_for_value per JSON class, type-name -> kind table)
+tie:     (T) gen/Gen_json.v regenerated on every run by OBSERVING the real JsonRecordPacker / JsonfileWriter /
+         JsonfileReader / fieldtype_for_value on probes (the source-shape recognisers are a cross-check);
          (C) generated record sequences over the JSON-supported types are written by the implementation
          (JsonfileWriter directly and through RecordWriter, descriptors on/off, indent None/2, .json/.jsonl),
          every document is parsed with a strict JSON parser, and inside Coq the model's document trees are
